@@ -13,7 +13,7 @@ import networkx as nx
 import numpy as np
 
 from . import bind  # noqa: F401
-from . import events, explore, worlds
+from . import canon, events, explore, worlds
 
 
 def vio(prop, clause, detail, case, check, cls=""):
@@ -751,9 +751,90 @@ def c13_cases(tier):
 # ===========================================================================
 # C04 / C05 constructor clause: every way of obtaining a SolutionTracks from a forest
 
+def two_objects_case(case):
+    """two projects alive in one process: object B1 (seed + history), then object A (another seed +
+    history), then B2 built exactly like B1.  The state invariants must hold on all three at the
+    end: whatever one object does must not reach another one."""
+    from . import events, oracles
+    _k, wname, seed_a, hist_a, seed_b, hist_b = case
+    w = worlds.world(wname)
+
+    def run(seed_j, hist):
+        tr = worlds.build(w, worlds.seed_from_json(seed_j))
+        events.attach_refresh_counter(tr)
+        for ev in hist:
+            events.apply_event(tr, w, tuple(tuple(x) if isinstance(x, list) else x for x in ev))
+        return tr
+
+    out = []
+    try:
+        objs = [("first", run(seed_b, hist_b)), ("other", run(seed_a, hist_a)), ("second", run(seed_b, hist_b))]
+    except Exception as e:  # noqa: BLE001
+        return [vio(p, "construct-raises", f"two objects in one process: {type(e).__name__}: {e}", case, "two-objects", "") for p in ("C04", "C05", "C06")]
+    for name, tr in objs:
+        for p, f in (("C03", oracles.inv_c03), ("C04", oracles.inv_c04), ("C05", oracles.inv_c05), ("C06", oracles.inv_c06)):
+            try:
+                bad = f(tr)[:1]
+            except Exception as e:  # noqa: BLE001
+                bad = [("oracle-raises", f"{type(e).__name__}: {e}")]
+            for clause, detail in bad:
+                out.append(vio(p, clause, f"{name} of three objects in one process (B, A, B again): {detail}", case, "two-objects", name))
+    return out
+
+
+def two_objects_cases(tier):
+    from . import events, explore
+    q = tier == "quick"
+    for wname in ("noseg-2d", "noseg-2d-given"):
+        w = worlds.world(wname)
+        sessions = []
+        for sname, depth in (("empty", 3 if q else 4), ("chain", 1), ("div", 1)):
+            if wname == "noseg-2d-given" and sname == "empty":
+                continue
+            seed = worlds.SEEDS[sname]
+            frontier = [[]]
+            seen = set()
+            for _d in range(depth + 1):
+                nxt = []
+                for hist in frontier:
+                    try:
+                        tr = explore.rebuild(w, seed, hist)
+                    except explore.ReplayDiverged:
+                        # objects built earlier in this process change what this one does: keep the
+                        # history as a session (the cases do not depend on acceptance), do not extend it
+                        sessions.append((worlds.seed_to_json(seed), [events.ev_to_json(e) for e in hist]))
+                        continue
+                    key = canon.state_key(tr)
+                    if key in seen:
+                        continue
+                    seen.add(key)
+                    sessions.append((worlds.seed_to_json(seed), [events.ev_to_json(e) for e in hist]))
+                    if len(hist) == depth:
+                        continue
+                    for ev in events.enabled_events(tr, w, kinds=("add_node", "add_edge", "del_edge")):
+                        if ev[0] == "add_node" and (ev[5] != "ok" or ev[4]):
+                            continue
+                        if ev[0] == "add_edge" and ev[3]:
+                            continue
+                        try:
+                            t2 = explore.rebuild(w, seed, hist)
+                        except explore.ReplayDiverged:
+                            continue
+                        if events.apply_event(t2, w, ev).status == "ok":
+                            nxt.append(hist + [ev])
+                frontier = nxt
+        cap = 45 if q else 120
+        sessions = sessions[:cap]
+        for sa, ha in sessions:
+            for sb, hb in sessions:
+                yield ("two", wname, sa, ha, sb, hb)
+
+
 def ctor_case(case):
     from funtracks.data_model import SolutionTracks, Tracks
     from . import oracles
+    if case[0] == "two":
+        return two_objects_case(case)
     kind, seed_j, mode = case
     seed = worlds.seed_from_json(seed_j)
     g = nx.DiGraph()
@@ -781,11 +862,13 @@ def ctor_case(case):
     except Exception as e:  # noqa: BLE001
         return [vio(p, "construct-raises", f"{mode}: {type(e).__name__}: {e}", case, "constructor", mode) for p in ("C04", "C05")]
     out = []
-    for p, f in (("C04", oracles.inv_c04), ("C05", oracles.inv_c05)):
-        for clause, detail in f(tr)[:2]:
+    for p, f in (("C04", oracles.inv_c04), ("C05", oracles.inv_c05), ("C06", oracles.inv_c06)):
+        try:
+            bad = f(tr)[:2]
+        except Exception as e:  # noqa: BLE001  (a query of the object itself raises)
+            bad = [("oracle-raises", f"{type(e).__name__}: {e}")]
+        for clause, detail in bad:
             out.append(vio(p, clause, f"{mode}: {detail}", case, "constructor", mode))
-    for clause, detail in oracles.inv_c06(tr)[:2]:
-        out.append(vio("C06", clause, f"{mode}: {detail}", case, "constructor", mode))
     if mode in ("given", "from_tracks-given"):
         ch = {n: (given_t[n], tr.get_track_id(n)) for n in g.nodes if tr.get_track_id(n) != given_t[n]}
         if ch:
@@ -802,6 +885,7 @@ def ctor_cases(tier):
         sj = worlds.seed_to_json(seed)
         for mode in ("compute", "given", "from_tracks", "from_tracks-given", "partial"):
             yield ("ctor", sj, mode)
+    yield from two_objects_cases(tier)
 
 
 # ===========================================================================
